@@ -58,11 +58,12 @@ def worker_env(compiled: bool):
 
 def points(tier: str) -> List[dict]:
     pts = []
+    th = tier == "thorough"
     heights = [1, 2, 3, 4, 5, 6, 127, 128, 129, 251, 252, 253]
     if tier == "thorough":
         heights += list(range(7, 40)) + [64, 100, 200, 250]
     for h in heights:
-        for delta in range(-3, 4):
+        for delta in (range(-3, 4) if th else range(-2, 3)):
             # one level per choice (min value): n booleans need levels 0..n, i.e. height n+1
             n = (h - 1) + delta
             if n >= 1:
@@ -80,6 +81,13 @@ def points(tier: str) -> List[dict]:
                 if h <= 6:
                     pts.append({"kind": "wide", "n": n, "w": 3, "height": h, "dom_h": 4, "cons": 0, "limit": 3 ** n, "needs": 2 * n + 1})
                     pts.append({"kind": "chain", "n": n + 1, "w": 4, "height": h, "dom_h": 2, "cons": 0, "limit": 1000, "needs": None})
+    # the same exhaustion inside a worker of the multiprocessing solver: the caller must see an error, not a partial answer
+    for h in ((2, 4, 6, 8) if not th else (2, 3, 4, 5, 6, 7, 8)):
+        for n in ((5,) if not th else (3, 5)):
+            for k in (2, 3):
+                pts.append({"kind": "gated", "n": n, "height": h, "dom_h": 0, "cons": 0, "limit": 10 ** 6, "workers": k, "needs": None, "ref_height": 64})
+                pts.append({"kind": "gated", "n": n, "height": h, "dom_h": 0, "cons": 0, "limit": 1, "workers": k, "op": "max", "objective": n + 1, "needs": None, "ref_height": 64})
+            pts.append({"kind": "bools", "n": n + 2, "height": h, "dom_h": 1, "cons": 0, "limit": 10 ** 6, "workers": 2, "needs": None, "ref_height": 64})
     # two levels per choice right at the representable limit: the 8-bit top of stack must not wrap
     for h in (250, 251, 252, 253, 254, 255, 256):
         for delta in (-1, 0, 1, 2):
@@ -167,7 +175,7 @@ def judge(spec: dict, res: dict, mode: str):
         return "ok-equal" if pt["outcome"] == "ok" else "ok-error", "no reference"
     if (pt["solutions"], pt["n"]) != (ref["solutions"], ref["n"]):
         return "violation", ("wrong-result", f"{mode}: height {spec['height']} gives {pt['n']} solutions {pt['solutions'][:2]}, ample stack gives {ref['n']} {ref['solutions'][:2]}")
-    if pt["depth"] != ref["depth"] or pt["choices"] != ref["choices"]:
+    if not spec.get("workers") and (pt["depth"] != ref["depth"] or pt["choices"] != ref["choices"]):
         return "violation", ("wrapped-statistic", f"{mode}: depth/choices {pt['depth']}/{pt['choices']} vs {ref['depth']}/{ref['choices']} with an ample stack")
     return "ok-equal", ""
 
